@@ -16,4 +16,4 @@ Your job: produce TWO DIFFERENT small source changes (each its own patch) to the
 
 For each change also write a demonstration: a Go test file (package vgirpc or an external test package, placed in the worktree, e.g. vgirpc/zz_seed_{pid.lower()}_a_test.go) or a small program that FAILS with the change applied and PASSES on the original code. Verify all of it yourself: original code → existing tests pass, demo passes; changed code → compiles, existing tests pass, demo fails.
 
-Deliver, in the directory {wt}/_seed/ (create it): for change k in (a, b): `k/patch.diff` (output of `git diff` for the library source only, NOT including the demo test file and NOT including _seed), `k/demo_test.go` (the demonstration, with a header comment giving the path it must be copied to and the exact command to run it), and `k/meta.json` with keys: property (the id), summary (one sentence: what the change does), needs (what specific input/sequence/interleaving it needs to manifest), files (list of source files changed), demo_cmd, verified (what you ran and observed). When done, leave the worktree's tracked source files reverted to the original (`git checkout -- .` there; keep only the _seed directory and nothing else untracked). Final message: a two-line summary of the two changes.""")
+Deliver, in the directory {wt}/_seed/ (create it): for change k in (a, b): `k/patch.diff` (output of `git diff` for the library source only, NOT including the demo test file and NOT including _seed), `k/demo_test.go` (the demonstration, with a header comment giving the path it must be copied to and the exact command to run it), and `k/meta.json` with keys: property (the id), summary (one sentence: what the change does), needs (what specific input/sequence/interleaving it needs to manifest), files (list of source files changed), demo_cmd, verified (what you ran and observed). When done, leave the worktree's tracked source files reverted to the original (`git checkout -- .` there; keep only the _seed directory and nothing else untracked). Do NOT use `git stash` (the stash is shared between worktrees; save diffs to files and use `git apply` instead). Final message: a two-line summary of the two changes.""")
